@@ -228,6 +228,9 @@ impl<C: Config, Q: Query> Snapshot<C, Q> {
             });
         }
 
+        #[cfg(feature = "verif")]
+        qbice_storage::verif::yield_point("pre:repair:tfc_join").await;
+
         // join all handles
         while let Some(handle) = join_set.join_next().await {
             handle.unwrap();
@@ -274,6 +277,9 @@ impl<C: Config, Q: Query> Snapshot<C, Q> {
             let entry = engine
                 .executor_registry
                 .get_executor_entry_by_type_id(&callee.stable_type_id());
+
+            #[cfg(feature = "verif")]
+            qbice_storage::verif::yield_point("pre:repair:check_callee").await;
 
             let _ = entry
                 .repair_query_from_query_id(
@@ -516,6 +522,10 @@ impl<C: Config, Q: Query> Snapshot<C, Q> {
                     }
 
                     let mut found_recompute = false;
+
+                    #[cfg(feature = "verif")]
+                    qbice_storage::verif::yield_point("pre:repair:unordered_join").await;
+
                     while let Some(result) = chunk_handles.join_next().await {
                         match result {
                             Ok(
